@@ -1,4 +1,5 @@
 """Engine E2: recorder and dataflow (C01, C10, C20; the value half of C17)."""
+import asyncio
 import concurrent.futures as cf
 import hashlib
 import json
@@ -60,6 +61,13 @@ def observe_program(P, givens, seed):
                 os.remove(f.name)
     except BaseException as e:  # noqa: BLE001
         build_error = e
+    if build_error is None and rng.random() < 0.3:
+        # an explicit setup() before the first call: it runs the setup call sites (also the nested ones) and nothing else -
+        # whatever the defaults of the parameters are - and the calls afterwards find their results
+        try:
+            asyncio.run(d.setup()) if is_async else d.setup()
+        except BaseException as e:  # noqa: BLE001
+            build_error = e
     setup_paths = pr.setup_paths(P)
     # setup results the object holds before its first call (a nested DAG that had run its setup nodes on its own)
     pre = [] if build_error is not None else sorted(list(path) for path, iid in flat if list(path) in setup_paths and iid in d.results)
